@@ -18,6 +18,7 @@ WG = "nervusdb_query::executor::WriteableGraph"
 def run(ctx):
     F = ctx.facts
     ctx.rule("C14.1", "delete-safety / detach computations consult the transaction's staged relationships, not only the snapshot")
+    ctx.rule("C14.2", "every relationship enumeration of the delete path covers both directions (outgoing and incoming)")
     tr = F.traits.get(WG)
     if tr is None:
         ctx.body(WG)  # anchor lost
@@ -43,3 +44,14 @@ def run(ctx):
                    "without DETACH while a staged relationship still points at it (dangling relationship after commit)", b.file,
                    sample={"fn": fn, "enumerations": [c.loc() for c in enum], "writeable_graph_calls": sorted(called)})
     ctx.floor("C14.1", "delete functions analysed", len(ctx.instances["C14.1"]) - 1, 3)
+
+    for fn in FNS:
+        b = F.bodies[fn]
+        outs = [c for c in b.calls() if c.declared == NEIGH[0]]
+        ins = [c for c in b.calls() if c.declared == NEIGH[1]]
+        if not outs and not ins:
+            continue
+        ctx.instance("C14.2", "%s: outgoing enumerations=%d incoming=%d" % (fn.split("::")[-1], len(outs), len(ins)))
+        ctx.oblige(len(outs) == len(ins) and outs, "C14.2", fn + ":one-direction-only",
+                   "the delete path enumerates relationships in one direction more often than in the other: relationships pointing AT a deleted "
+                   "node are not refused / not detached and dangle", b.file)
